@@ -75,7 +75,9 @@ PROPS = {
         "rule": "rotogen 'ownership' profile: programs that create, clone, store, pass and discard drop-tracked host values "
                 "(24-byte Trk), strings and lists in every construct; the ledger checks each instance id is dropped exactly "
                 "once and the allocation balance returns to zero after the call; non-trivial = ran and produced clone/drop "
-                "or host events",
+                "or host events; script constants may be aggregates whose fields are read through paths and may own "
+                "drop-tracked values (the ledger keeps what compilation created as the baseline of every call: a call may "
+                "neither add to it nor release it)",
         "jobs": diff_jobs("ownership", 40000, 1000000, "C03", memcheck=True),
         "assumptions": DIFF_ASSUME + ["known-defect patterns (see KNOWN_FINDINGS.txt) are kept out of the random stream; "
                                       "their witnesses in corpus/ run in every check"],
@@ -141,7 +143,8 @@ PROPS = {
         "technique": "crash/hang supervision of worker processes + panic hook + span/rendering assertions on hostile inputs",
         "rule": "one input per case from {token soup with grammar-shaped bias, rotogen programs with 1-3 token/character "
                 "mutations or splices, ill-typed AST mutants, hand-shaped Unicode programs, structurally odd snippets, module "
-                "trees of 2-5 files with odd names/empty files}; every case is non-trivial; distinct = distinct input text; "
+                "trees of 2-5 files with odd names/empty files, literal-escape programs (string / f-string / char literals over "
+                "valid and invalid escapes, doubled braces, interpolations, multi-byte text, line continuations)}; every case is non-trivial; distinct = distinct input text; "
                 "coverage tags record the input family, the outcome and the first line of each distinct error message",
         "jobs": [
             {"family": "totality", "flavour": "release", "cases": {"quick": 120000, "thorough": 3000000}, "case_timeout": 20},
@@ -164,8 +167,11 @@ PROPS = {
         "level_note": "Trusted base: the construction argument for each edit kind (harness/rvmon/src/rg/mutate.rs) and the base "
                       "program compiling. Sampled base programs; every edit kind at every site up to a per-kind bound.",
         "technique": "mutation of typed ASTs into by-construction ill-typed programs; accept/reject + error-kind monitor",
-        "rule": "base programs from rotogen (scalar, aggregate and effects profiles) that compile; 45 edit kinds incl. retargeted match arms and ten out-of-scope-across-sibling-scopes kinds with well-typed controls (type mismatch "
-                "at 8 kinds of typed position, argument count, unknown name, missing/duplicate/unknown field, non-exhaustive "
+        "rule": "base programs from rotogen (scalar, aggregate and effects profiles) that compile; 47 edit kinds incl. retargeted match arms and ten out-of-scope-across-sibling-scopes kinds with well-typed controls (type mismatch "
+                "at 8 kinds of typed position with the wrong-typed expression drawn from a palette of 17 shapes: literals of "
+                "other widths, unit-typed loops / if-without-else / blocks in value position, the value wrapped in Some / [..], "
+                "None, strings, chars, anonymous records; constant cycles through random groups of 2-4 mutually recursive "
+                "functions in random item order; types recursive only through the argument of a generic after harmless uses of it; argument count, unknown name, missing/duplicate/unknown field, non-exhaustive "
                 "match, arm after default, negated unsigned, arithmetic on bool, ordering on char, % on floats, ? outside an "
                 "Option function, redeclaration, accept in fn, return in const, assignment to constant/function, recursive "
                 "types direct/mutual/through Option, constant cycles) applied at every site (<= 3 quick / 6 thorough sites "
@@ -239,7 +245,8 @@ PROPS = {
         "rule": "random module trees (<= 7 modules, depth <= 3, the same item names reused in all modules) delivered through "
                 "FileTree::file_spec and through FileTree::read of a temporary directory with decoys; per tree 2n+4 (quick) / "
                 "3n+6 (thorough) valid references over all reference forms and scope depths plus 5/8 must-be-error "
-                "references compiled alone, every function fetched by module path; non-trivial = at least one reference "
+                "references compiled alone, every function fetched by module path; a fifth of the outer scopes hold an import "
+                "ladder (2-3 imports each needing the name the previous one binds, tried in every order); non-trivial = at least one reference "
                 "checked; distinct = distinct tree + references",
         "jobs": [
             {"family": "modules", "flavour": "release", "cases": {"quick": 4000, "thorough": 60000}},
@@ -264,7 +271,9 @@ PROPS = {
                 "aliasing states in blocks of 8192, plus seeded random sequences <= 200 operations over 3 slots starting "
                 "next to each growth boundary 0,4,..,256, for element types u64, 24-byte tracked, u8, String, List<u8>, "
                 "zero-sized tracked, Option<u32>; list-script: the same sequences printed as Roto programs (out_* log vs "
-                "model) or routed at random through the Rust API or compiled script functions on the same objects; "
+                "model) or routed at random through the Rust API or compiled script functions on the same objects; script "
+                "loops are also left from inside their body (return, return out of two loops, ? on None) after 0, 1, "
+                "len-1, len, len+1 elements; script element types include () (zero-sized, no clone function); "
                 "non-trivial = at least one result compared; evaluations = operations executed",
         "jobs": [
             {"family": "list-api", "flavour": "release", "cases": {"quick": 0, "thorough": 0}, "case_timeout": 60,
@@ -317,7 +326,10 @@ PROPS = {
                       "handles are never called (that would be UB) but reported.",
         "technique": "exhaustive enumeration of a finite type catalogue with an accept/refuse oracle (structural equality)",
         "rule": "case = one row batch of the 87x87x2 request matrix, of the arity matrix (9x8), the transposition set, the "
-                "filtermap matrix (15x24), the name list (937x10) or the registered-type requests; evaluations = requests and "
+                "filtermap matrix (15x24), the name list (937x10), the registered-type requests or the nomapping case (script "
+                "records / enums that shadow the name of a built-in leaf type or of List / Option / Result / Verdict, and the "
+                "never type at depth 0-2, requested as the same-named built-in, a same-sized primitive, a registered type "
+                "or () - none may be handed out); evaluations = requests and "
                 "calls made; non-trivial = at least one verdict compared; distinct = distinct row",
         "jobs": [
             {"family": "sig-gate", "flavour": "release", "cases": {"quick": 0, "thorough": 0}},
@@ -368,7 +380,8 @@ PROPS = {
         "rule": "case = 1-3 libraries added to one runtime (1-12 items nested <= 3 modules, 8 harness types, 18 function "
                 "shapes, constants, impl blocks, use items; 70% shuffled; 55% with one injected defect from: bad name "
                 "classes, duplicates per scope and across adds, type registered twice, unregistered type in "
-                "signature/impl/constant, bad or clashing use); first 26 cases are fixed library! libraries and witnesses; "
+                "signature/impl/constant, bad or clashing use; types inside modules may be named like the prelude enums, "
+                "which is legal); first 26 cases are fixed library! libraries and witnesses; "
                 "non-trivial = at least one verdict compared",
         "jobs": [
             {"family": "registration", "flavour": "debug", "cases": {"quick": 8000, "thorough": 120000}},
@@ -412,7 +425,8 @@ PROPS = {
         "rule": "random DAGs of 2-12 constants and 0-8 functions (edges by direct mention, nested block, if branch, method "
                 "call on a constant, function call), printed in random declaration order over 1-4 modules with paths or "
                 "imports; node values travel through random aggregate value shapes (records, enums, Options, lists, strings, "
-                "nested) with copies, comparisons and constant-field reads; recursive function groups of size 1-3 with a "
+                "nested) with copies, comparisons and constant-field reads (also twice in one item: in both branches of an if, "
+                "or in a branch and after it); recursive function groups of size 1-3 with a "
                 "decreasing depth parameter; random identifier spellings; 20% with an injected cycle (self, mutual, through "
                 "functions / recursive groups), 20% with a context read in 7 syntactic forms (direct, through functions, through "
                 "recursive groups), with and without a context type on the runtime; every case is non-trivial",
@@ -437,7 +451,8 @@ PROPS = {
                       "generated.",
         "technique": "independent literal decoders + reference precedence climber compared with compiled scripts",
         "rule": "cases 0..2378 = every sequence of 1-3 binary operators over the 13 operators with random unary prefixes; then "
-                "sampled: operator sequences of length 4-6, integer (underscores, hex, suffix, full range of the type), float "
+                "sampled: operator sequences of length 4-6, integer (underscores, hex, suffix, full range of the type; literals "
+                "of signed types under unary minus incl. the minimum of each type), float "
                 "(fraction, exponent, suffix), string and char (every escape, continuation), f-string ({{ }} escapes, Unicode "
                 "text), IPv4/IPv6/ASN/prefix literals, identifiers (XID start/continue from long-stable blocks, non-XID and "
                 "keyword negatives), comments and shebang at token boundaries; non-trivial = at least one value or verdict "
@@ -466,7 +481,8 @@ PROPS = {
         "technique": "exhaustive short + random long drop-order histories checked by an ownership model, drop ledger and ASan",
         "rule": "cases 0..407: scenario closure-holds-script-list (one runtime whose registered closures store script-made "
                 "lists, 6 shapes x all drop orders of runtime, package, handles, clones, into_func closures); then one "
-                "enumerated history each over 18 operations (handles, clones, into_func closures, packages, runtimes; object "
+                "enumerated history each over 20 operations (handles, clones, into_func closures, collected test cases, packages, "
+                "runtimes; every script has a zero-sized drop-tracked constant counted against the model; object "
                 "choice oldest/newest, at most 3 runtimes and 4 script versions, two same-typed closures with separate "
                 "captured state per runtime) of length <= 4 (6 thorough); remaining cases: random histories; evaluations = operations "
                 "executed; events = handle calls and live-set comparisons; non-trivial = at least one operation",
@@ -499,7 +515,10 @@ PROPS = {
                 "clones or their own into_func closures while the package and the original handle are dropped; every 8th case: "
                 "scenario shared-lists (four handles, two shared lists of length 0..200000 in both argument orders, injected "
                 "lock delays, progress-based stuck detector) and every 8th case: scenario shared-runtime (2-16 threads compile "
-                "against, call and drop packages of one runtime with 3-48 same-typed closures owning tracked state); "
+                "against, call and drop packages of one runtime with 3-48 same-typed closures owning tracked state); every "
+                "16th case: scenario shared-stringbufs (functions comparing two StringBuf constants in both operand orders) "
+                "and scenario shared-lists-mutating (pushes, swaps, comparisons, reads on two shared lists: conservation of "
+                "the elements, per-thread push order, no impossible value, progress); "
                 "non-trivial = at least one concurrent call compared",
         "jobs": [
             {"family": "concurrent", "flavour": "release", "cases": {"quick": 600, "thorough": 12000}, "shards": 4,
